@@ -49,7 +49,7 @@ def run(ctx):
         if fld.startswith("statement."):
             # operand positions: parser: subject local / predicate = value parsed after the copula;
             # fold: parameters subject(1), predicate(3) of fold_statement
-            pn = norm_operands(pt, {"subject": 0})
+            pn = norm_operands(pt, {P.subject_name: 0})
             # any remaining non-ctor leaf in the parser tree is the predicate expression
             def leafmap(t):
                 if t[0] in ("ctor",):
@@ -65,8 +65,8 @@ def run(ctx):
             fparams = F.params["fold_statement"]
             names = {}
             for i, n in enumerate(fparams):
-                if n == "subject": names["$%d" % i] = 0
-                if n == "predicate": names["$%d" % i] = 1
+                if i == 1 and len(fparams) == 4: names["$%d" % i] = 0        # fold_statement(folder, subject, copula, predicate): by position
+                if i == 3 and len(fparams) == 4: names["$%d" % i] = 1
             fn = norm_operands(ft, names)
             ctx.ob("M-PARSE=M-FOLD", "%s operands" % fld, pn == fn,
                    "enum parser builds %s ; fold builds %s (0=subject,1=predicate)" % (tree_s(pn), tree_s(fn)))
